@@ -197,7 +197,11 @@ class DAGRunConcurrentManager(DAGRunManagerLike):
                 if kwarg_name is None:
                     continue
 
-                if self._is_switch(pred_node_id):
+                if self._is_switch(pred_node_id) and self._node_storage.exists_node_error(pred_node_id):
+                    # The switch did not find its case inside a OneOf subgraph
+                    value = self._node_storage.get_node_result(pred_node_id)
+
+                elif self._is_switch(pred_node_id):
                     value = self._node_storage.get_node_result(
                         self._node_storage.get_switch_result(pred_node_id).node_id,
                         with_hidden=True,
@@ -630,7 +634,17 @@ class DAGRunConcurrentManager(DAGRunManagerLike):
         try:
             self._add_case_result(node_id)
         except KeyError as ex:
-            await self.__raise_exc(SwitchDoesNotHaveCaseError(node_id, ex.args[0]))
+            error = SwitchDoesNotHaveCaseError(node_id, ex.args[0])
+
+            if dag.is_oneof:
+                # Inside a OneOf subgraph an error is kept as the node's result, so that only the candidate fails
+                # and the OneOf can go on with the next one.
+                self._node_storage.set_node_result(node_id, error)
+                await self.__unlock_itself(node_id)
+                await self.__unlock_descendants(node_id)
+                return None
+
+            await self.__raise_exc(error)
 
         result = await self._run_dag(
             dag=self._get_reduced_dag(
